@@ -244,18 +244,18 @@ pub fn show_d(d: &RefD) -> String {
 macro_rules! with_hasher {
     ($idx:expr, $X:ident, $body:expr) => {
         match $idx {
-            0 => { type $X = $crate::hs::B256F62; $body },
-            1 => { type $X = $crate::hs::B256F64; $body },
-            2 => { type $X = $crate::hs::B256F128; $body },
-            3 => { type $X = $crate::hs::B192F62; $body },
-            4 => { type $X = $crate::hs::B192F64; $body },
-            5 => { type $X = $crate::hs::B192F128; $body },
-            6 => { type $X = $crate::hs::S3F62; $body },
-            7 => { type $X = $crate::hs::S3F64; $body },
-            8 => { type $X = $crate::hs::S3F128; $body },
-            9 => { type $X = $crate::hs::RP64; $body },
-            10 => { type $X = $crate::hs::JIVE; $body },
-            _ => { type $X = $crate::hs::RP62; $body },
+            0 => { type $X = $crate::B256F62; $body },
+            1 => { type $X = $crate::B256F64; $body },
+            2 => { type $X = $crate::B256F128; $body },
+            3 => { type $X = $crate::B192F62; $body },
+            4 => { type $X = $crate::B192F64; $body },
+            5 => { type $X = $crate::B192F128; $body },
+            6 => { type $X = $crate::S3F62; $body },
+            7 => { type $X = $crate::S3F64; $body },
+            8 => { type $X = $crate::S3F128; $body },
+            9 => { type $X = $crate::RP64; $body },
+            10 => { type $X = $crate::JIVE; $body },
+            _ => { type $X = $crate::RP62; $body },
         }
     };
 }
